@@ -186,3 +186,77 @@ def ob_d(ob):
                     return
                 ob.verdict(v, "d:guess count")
         ob.sample({"nroots": nroots, "paths": ex.paths})
+
+
+def replay_rpa_root_selection(done, zero_pad):
+    """float64, real rpa_subspace_eig on diagonal model matrices: each active molecule must receive the lowest eigenvalues
+    above its OWN zero padding"""
+    from seqm.seqm_functions import rpa as R
+
+    nmol, n, nroots = len(done), 6, 2
+    lam = torch.tensor([[float((b + 2) * (k + 1)) for k in range(n)] for b in range(nmol)], dtype=torch.float64)
+    ApB = torch.diag_embed(lam**2)
+    AmB = torch.eye(n, dtype=torch.float64).repeat(nmol, 1, 1)
+    ev = torch.zeros(nmol, nroots, dtype=torch.float64)
+    R.rpa_subspace_eig(ApB, AmB, nroots, torch.tensor(zero_pad), ev, torch.tensor(done))
+    bad = False
+    for b in range(nmol):
+        if not done[b]:
+            want = lam[b, zero_pad[b] : zero_pad[b] + nroots]
+            print("replay RPA root selection: molecule %d (zero padding %d) got %s, lowest roots above its padding %s" % (b, zero_pad[b], ev[b].tolist(), want.tolist()))
+            bad |= (ev[b] - want).abs().max().item() > 1e-9
+    return bad
+
+
+@obligation(PID, "e", title="RPA subspace step in a batch where some molecules have already converged: every still-active molecule receives the nroots lowest Ritz values above its own count of zero-padded directions (not those of the molecule that happens to share its position in the active list), for every pattern of converged molecules")
+def ob_e(ob):
+    from seqm.seqm_functions import rpa as R
+
+    ob.encodes(R.rpa_subspace_eig)
+    ob.bound("3 molecules, subspace size 5, 2 roots, zero-padding counts (2, 0, 1); every non-empty set of active molecules; the Ritz values w^2 of every active molecule symbolic reals > 1")
+    ob.assume("the dense eigen-solver and the matrix square root are recorders (eigenvectors = identity); the amplitude back-transformation that follows is executed but only the selected eigenvalues are checked")
+    import itertools
+
+    n, nroots, zp = 5, 2, [2, 0, 1]
+    saved = (R.make_sqrt_mat, torch.linalg.eigh)
+    try:
+        for done in itertools.product((False, True), repeat=3):
+            if all(done):
+                continue
+            S.reset()
+            S.ST.sqrt_mode = "canon"
+            act = [b for b in range(3) if not done[b]]
+            L = np.array([[z3.Real("w2_%d_%d" % (b, k)) for k in range(n)] for b in act], dtype=object)
+            assm = [L[j, k] > 1 for j in range(len(act)) for k in range(n)]
+            eye = torch.eye(n, dtype=torch.float64)
+            R.make_sqrt_mat = lambda A: (eye.repeat(A.shape[0], 1, 1), eye.repeat(A.shape[0], 1, 1), torch.ones(A.shape[0], n, dtype=torch.float64))
+            torch.linalg.eigh = lambda H, *a, **k: (SymTensor(L.copy()), eye.repeat(len(act), 1, 1))
+
+            def fn():
+                ev = SymTensor(np.full((3, nroots), z3.RealVal(1), dtype=object))
+                with symbolic_factories():
+                    R.rpa_subspace_eig(eye.repeat(3, 1, 1), eye.repeat(3, 1, 1), nroots, torch.tensor(zp), ev, torch.tensor(done))
+                return ev.a.copy()
+
+            ex = Explorer(assumptions=assm, piecewise="ite", kind="nra", max_paths=20)
+            res = ex.run(fn)
+            ob.paths += ex.paths
+            ob.require(len(res) >= 1, "no feasible path through rpa_subspace_eig for done=%s" % (done,))
+            for pc, side, ev in res:
+                S.ST.side[:] = side
+                base = assm + list(pc)
+                for j, b in enumerate(act):
+                    for r in range(nroots):
+                        lab = "e:done=%s molecule %d root %d" % (done, b, r)
+                        v, m = smt.prove(z3.And(ev[b, r] >= 0, ev[b, r] * ev[b, r] == L[j, zp[b] + r]), base, lab, "nra", 60)
+                        if v == "sat":
+                            if replay_rpa_root_selection(list(done), zp):
+                                ob.violation("rpa_subspace_eig with converged pattern %s: molecule %d does not receive the lowest roots above its own zero padding (roots skipped or zero 'states' returned; RPA can then exceed CIS and depend on batch order)" % (done, b), {"module": "harness.C16", "func": "replay_rpa_root_selection", "args": {"done": list(done), "zero_pad": zp}})
+                                return
+                            raise HarnessError("RPA root-selection counterexample did not reproduce (%s)" % lab)
+                        ob.verdict(v, lab)
+    finally:
+        R.make_sqrt_mat, torch.linalg.eigh = saved
+        S.ST.sqrt_mode = "plain"
+    x, y = z3.Reals("x y")
+    expect_refuted(ob, x == y, [x > 1, y > 1], "twin: another molecule's Ritz value is distinguishable", "nra")
